@@ -772,9 +772,9 @@ func main() {
 		ID: "C29", Model: "C29", Gen: gen, Impl: impl, Oracle: oracle,
 		Cases: func(th bool) int {
 			if th {
-				return 6000
+				return 4000
 			}
-			return 220
+			return 150
 		},
 		Fixed: fixed(),
 	})
